@@ -917,6 +917,15 @@ def parent_family(I, name, remote, loc, obs):
     return None
 
 
+def degenerate_ref(I, loc):
+    """the URL designates `refs/heads/` (an empty branch name spelled as a ref): excluded"""
+    try:
+        _, b, r = I.urls.bzr_url_to_git_url(loc)
+        return eff(I, b, r.encode("utf-8") if isinstance(r, str) else r) == b"refs/heads/"
+    except Exception:  # noqa: BLE001
+        return False
+
+
 def equivalent_urls(I, a, b):
     """same location and same git ref designated (branch X == ref refs/heads/X, no parameter == HEAD)"""
     if a == b:
@@ -1000,7 +1009,9 @@ def sec_parent(ctx, I):
         # --- oracle: a canonical URL is read back unchanged
         if is_canon and o["set"] == "ok" and "," not in I.urls.git_url_to_bzr_url(
                 I.urlutils.split_segment_parameters(loc)[0]):
-            if not o["full_ok"] or not equivalent_urls(I, o["full"], loc):
+            if degenerate_ref(I, loc):
+                ctx.count("parent:degenerate-ref")
+            elif not o["full_ok"] or not equivalent_urls(I, o["full"], loc):
                 ctx.violation(case, "branch %r: set_parent(%r) then get_parent() = %r" % (name, loc, o["full"]),
                               family=fam)
         # --- T2
@@ -1034,6 +1045,19 @@ def sec_parent(ctx, I):
             o = run_parent_case(name, None, [full])[0]
             ctx.case(["parent-file", js(name), js(br_), jb(rf)])
             ctx.count("parent:file-url:" + ("same" if o["full_ok"] and o["full"] == full else "differs"))
+            if o["set"] == "ok" and (not o["full_ok"] or not equivalent_urls(I, o["full"], full)):
+                stored = dict(((a, b, c), v) for a, b, c, v in o["after"])
+                url = stored.get((b"remote", b"origin", b"url"), b"")
+                merge = stored.get((b"branch", name.encode("utf-8"), b"merge"))
+                fam = None
+                if b":" not in url and merge == eff(I, br_, rf) and o["full_ok"] and o["full"] == u:
+                    # stored correctly as a relative path + merge ref; git_url_to_bzr_url returns a
+                    # location that is neither a URL nor rsync-style without appending the parameters
+                    fam = "parent-local-path-drops-ref"
+                ctx.violation(dict(kind="parent-file", name=js(name), branch=js(br_), ref=jb(rf)),
+                              "branch %r: set_parent(%r) then get_parent() = %r (remote.origin.url = %r, merge = %r)"
+                              % (name, full.replace(other, "<dir>"), str(o["full"]).replace(other, "<dir>"),
+                                 url, merge), family=fam)
             ctx.extra.setdefault("parent_file_url_observations", []).append(
                 dict(name=name, set=full.replace(other, "<dir>"), got=str(o["full"]).replace(other, "<dir>")))
 
